@@ -26,6 +26,65 @@ CHECKS = {
         "note": "Sampled sequences (not exhaustive). Sequences stop at the first rejection; liquidation is not triggered here. "
         "Wallet equality is up to the Decimal context precision (35 digits).",
     },
+    "C03": {
+        "technique": "invariant at quiescent points: reported net value and deep state projection compared around every operation (accepted or rejected) at a frozen market state",
+        "text": "Frozen-market scenes of every market type (uniswap, aave, uniswap+aave, squeeth with its pool, deribit incl. closed bars, "
+        "GMX v1/v2, broker swaps) on one valuation basis are driven with random operation sequences with hostile arguments (zero, exactly the "
+        "holding, a hair over/under, x10, x1e6, negative, unknown keys). Around every operation the monitor checks: net value does not rise "
+        "beyond wallet dust (1e-5 of each touched balance); uniswap add/remove/collect and aave supply/withdraw/borrow/repay conserve it; pool "
+        "swaps lose exactly the reported fee; no projected holding is negative; pay-outs (withdraw, collect, sell, redeem) do not exceed the "
+        "holding they draw on.",
+        "note": "Net value is the reported figure (C01 decides its honesty). Allowances on top of dust: 1e-24 relative (Decimal prec 35), 1e-9 "
+        "relative in GMX v2 and squeeth scenes (float arithmetic), 2e-4 when an Aave market is present (its totals are quantised to 1e-4), the "
+        "measured pool-vs-index price gap for squeeth LP deposit/withdraw. Sampled states and arguments. One protocol-faithful known finding "
+        "(GM deposit with positive price impact) is listed in known_findings.jsonl.",
+    },
+    "C08": {
+        "technique": "reference-model monitor: exact per-bar fee model fed from the raw input rows, compared with the change of every position's pending amounts across each update()",
+        "text": "Generated pools (fee tiers, decimals, orientation, int64/float tick columns, 1 min / 5 min / 1 h bars, liquidity and volumes over "
+        "many decades, closes exactly on range bounds, whole-range jumps, stationary ticks, empty pool rows) run through the real Actuator with "
+        "scripts that open 1-4 positions and interleave unrelated operations in every phase; update() is bracketed and the pending-amount "
+        "deltas of every position are compared with volume x rate x in-range path fraction x share, path starting at the previous bar's close.",
+        "note": "Tolerance 1e-22 relative + 1e-32 of the pending total (accumulated prec-35 Decimals); with several own positions the share is "
+        "bounded as the statement says; bar 0 only bounded. Sampled paths and scripts.",
+    },
+    "C12": {
+        "technique": "step replay: every recorded LiquidationAction replayed in exact Fraction arithmetic against the state observed before/after each step of update()",
+        "text": "Generated portfolios (1-3 collaterals, 1-3 debts, per-token liquidity and borrow indices that differ, debt prices below/above 1) are "
+        "followed over bars whose prices are solved so that the health factor lands in chosen bands ((0.95,1), (0.5,0.95], (0,0.5], >=1, exactly "
+        "on 1 / 0.95 and 1e-18 next to them); Market.update() is run directly and through the Actuator loop and each step is checked: iff HF<1, "
+        "close factor, seized = repaid value x (1+bonus) at the collateral's own index or everything with the repayment scaled down, wallet "
+        "untouched, record = state change, net value drop = bonus x repaid, non-negative amounts, termination condition, no exception.",
+        "note": "1e-15 relative + 2e-18 scaled units on amounts; HF within 1e-25 of a threshold may go either way. The choice of the "
+        "collateral/debt pair is not constrained by the statement. Sampled portfolios.",
+    },
+    "C13": {
+        "technique": "shadow recomputation: every derived view read after warmed-cache writes compared with a from-scratch exact recomputation from raw positions, indices, prices and risk rows",
+        "text": "Random interleavings of 30-70 writes (supply, withdraw, borrow, repay with cash/collateral, collateral flag changes, liquidation via "
+        "update(), new bars, re-pricing, rejected calls of each) on the real AaveV3Market; before each write a random subset of the 19 views is "
+        "read to warm the caches, afterwards all views are read and each is compared with the recomputation (values, collateral flags, health "
+        "factor, LTVs, APYs, market balance).",
+        "note": "Equality up to the rounding a 35-digit Decimal implementation accumulates (propagated bound, floor 1e-30 relative); APYs within "
+        "1e-24; 1e-4-quantised balance fields within half a quantum. Sampled interleavings.",
+    },
+    "C18": {
+        "technique": "reference model of denoted bars (closed form, integer microseconds) compared with recorded firings, kwargs and retirement bar of every trigger run through the real bar loop",
+        "text": "Generated bar grids (start minute, interval 1 min .. 1 day, 1-600 bars) are run through the real Actuator.run with 16-48 independent "
+        "triggers of all six time-trigger classes, parameters placed relative to the grid (on/off a bar, with seconds, before/after the data, "
+        "touching/overlapping ranges, periods that do / do not divide the interval, coinciding periods, delays, immediate flag), registered in "
+        "initialize or later; firing set, one call per firing with the extra arguments, and retirement only when no later bar is denoted.",
+        "note": "Times are compared after truncation to the minute. Empty lists / zero periods are outside the specification. Sampled grids and "
+        "parameters.",
+    },
+    "C20": {
+        "technique": "reference-model monitor: every metric function called on generated series and compared with its definition computed in 60-digit Decimal",
+        "text": "Generated positive net-value series (21 shape classes incl. largest-absolute vs largest-relative decline elsewhere, length 2..2000, "
+        "float64/Decimal/int64, scales 1e-9..1e15, intervals 1 s .. 7 d) with benchmarks: max drawdown (definition, range, zero for never-falling, "
+        "scale invariance), total/annualised return across their input forms, return series, volatility, Sharpe, alpha/beta and every entry of "
+        "performance_metrics() against direct recomputation.",
+        "note": "Float results compared at 1e-9 relative plus the unavoidable double rounding (amplified for annualised figures, compared in log "
+        "space); ill-conditioned figures (admissible error > 1e-3) are not compared. Sampled series.",
+    },
     "C04": {
         "technique": "invariant at quiescent points: deep state projection compared around every raising call, rejection sites taken from tracebacks",
         "text": "Frozen-market scenes of every market type (uniswap, aave, uniswap+aave, squeeth with its pool, deribit incl. closed bars, "
